@@ -797,12 +797,20 @@ class World(object):
         Shut-down all simulators and close the server socket.
         """
         if not self.loop.is_closed():
+            errors: List[Exception] = []
             for sim in self.sims.values():
-                self.loop.run_until_complete(sim.stop())
+                # A simulator that fails to stop must not prevent the
+                # others from being stopped.
+                try:
+                    self.loop.run_until_complete(sim.stop())
+                except Exception as e:
+                    errors.append(e)
 
             self.loop.stop()
             self.loop.run_forever()
             self.loop.close()
+            if errors:
+                raise errors[0]
 
 
 if TYPE_CHECKING:
